@@ -846,8 +846,11 @@ let run (lineno : int) (lbc : str -> n list) ofit (args : string array) (impl : 
              (* the hypothesis of theorem C14_any_separator, evaluated by the extracted function:
                 where it is true, idempotence of the model is a theorem for this very text *)
              let refind = o.o_alg = FirstFit && builtin && noind && refind_b cw alnum lbc custom3 o t in
+             (* the same in the property's own words: no fragment had to be force-broken and the
+                oracle is local on this text (C14_from_locality_and_no_forced_break) *)
+             let property_form = refind && no_forced_b cw alnum lbc custom3 o t && local_b cw alnum lbc custom3 (o_nobreak o) t in
              if refind then say "C14" (if a = b then "ok" else "FAIL")
-                 (if a = b then "theorem-instance" else "refind_b holds for this text, so idempotence is a theorem of the model, but the implementation's second fill differs")
+                 (if a = b then (if property_form then "theorem-instance (no forced break, local oracle)" else "theorem-instance") else "refind_b holds for this text, so idempotence is a theorem of the model, but the implementation's second fill differs")
              else if not applies then say "C14" "skip" "outside the stated option combinations"
              else if a = b && (match o.o_alg with OptimalFit _ -> refind_opt_b cw alnum lbc custom3 o t | FirstFit -> false) then
                (* hypothesis of C14_optimal_fit_any_separator holds for this text: an instance of
